@@ -226,6 +226,12 @@ func (e Float64Engine) Inner(a, b Tensor) (retVal float64, err error) {
 		return 0, errors.Errorf("b is not a *Dense")
 	}
 
+	if !AD.DataOrder().IsContiguous() || !BD.DataOrder().IsContiguous() {
+		// BLAS walks the backing arrays with unit stride: a view with gaps is not the vector
+		// it would be told about
+		return 0, errors.Errorf(nonContiguousBLAS)
+	}
+
 	A = AD.Float64s()
 	B = BD.Float64s()
 	retVal = whichblas.Ddot(len(A), A, 1, B, 1)
